@@ -9,8 +9,10 @@ import (
 	"fmt"
 	"os"
 	"sort"
+	"strconv"
 	"strings"
 	"sync"
+	"time"
 )
 
 // Out collects case lines and distribution statistics.
@@ -68,7 +70,25 @@ func execCase(scn string, in string) string {
 	if in != "" {
 		toks = strings.Split(in, " ")
 	}
-	return f(toks)
+	// a case that never returns (e.g. the code under test deadlocked and even the
+	// executor's clean-up blocks) becomes a failing case instead of a hung check
+	done := make(chan string, 1)
+	go func() { done <- f(toks) }()
+	select {
+	case r := <-done:
+		return r
+	case <-time.After(caseTimeout()):
+		return "hang:case-watchdog"
+	}
+}
+
+func caseTimeout() time.Duration {
+	if v := os.Getenv("VERIF_CASE_TIMEOUT_S"); v != "" {
+		if n, err := strconv.Atoi(v); err == nil && n > 0 {
+			return time.Duration(n) * time.Second
+		}
+	}
+	return 300 * time.Second
 }
 
 type scenario func(o *Out, r *Rng, thorough bool)
